@@ -39,6 +39,8 @@ type system struct {
 	buf      []byte
 	m        *model
 	start    int64
+	infos    [2]*interceptor.StreamInfo
+	unbound  [2][2]bool       // [direction][stream]
 	lastEff  []func(m *model) // model updates of the last RTCP symbol (re-applied to variants when classifying a mismatch)
 }
 
@@ -60,6 +62,7 @@ func newSystem(start int64) (*system, error) {
 	s.rtcpWr = s.icpt.BindRTCPWriter(s.rtcpSink)
 	for k := 0; k < 2; k++ {
 		info := &interceptor.StreamInfo{SSRC: ssrcs[k], ClockRate: uint32(clockRates[k]), PayloadType: 96}
+		s.infos[k] = info
 		s.feed[k] = &hk.FeedReader{}
 		s.wr[k] = s.icpt.BindLocalStream(info, s.rtpSink)
 		s.rd[k] = s.icpt.BindRemoteStream(info, s.feed[k])
@@ -132,6 +135,9 @@ func (s *system) nextSeq(dir, x, delta int) int64 {
 }
 
 func (s *system) doRTP(o op) error {
+	if s.unbound[o.Dir][o.Via] {
+		return nil // no traffic through a stream that was unbound
+	}
 	v := s.nextSeq(o.Dir, o.SSRC, o.Delta)
 	ext, plen := shapeOf(o.Shape)
 	seq := uint16(v)
@@ -452,6 +458,15 @@ func (s *system) apply(o op) error {
 		err = s.doRTCP(o)
 	case kAdv:
 		vsched.Advance(o.D)
+	case kUnbind:
+		if !s.unbound[o.Dir][o.Via] {
+			s.unbound[o.Dir][o.Via] = true
+			if o.Dir == dirIn {
+				s.icpt.UnbindRemoteStream(s.infos[o.Via])
+			} else {
+				s.icpt.UnbindLocalStream(s.infos[o.Via])
+			}
+		}
 	}
 	vsched.Quiesce()
 	return err
